@@ -16,13 +16,22 @@ def _harness_flags():
     # fixes/C08-6: Dirichlet / Beta sample log-gammas through sampleLogGammaDistribution; the harness then replays that helper
     if re.search(r'double\s+sampleLogGammaDistribution\s*\(', src):
         flags.append('-DC08_LOG_GAMMA')
+    # fixes/C08-7: do the NO_CHECK constructors of the POMDP models seed their engine?  the harness mirrors the code as it is
+    try:
+        pm = open(os.path.join(os.environ.get('AITB_REPO', '/repo'), 'include/AIToolbox/POMDP/Model.hpp')).read()
+        sm = open(os.path.join(os.environ.get('AITB_REPO', '/repo'), 'include/AIToolbox/POMDP/SparseModel.hpp')).read()
+        pat = r'::(?:Sparse)?Model\(NoCheck[^{]*?rand_\(Seeder::getSeed\(\)\)[^{]*\{'
+        if re.search(pat, re.sub(r'\s+', '', pm)) and re.search(pat, re.sub(r'\s+', '', sm)):
+            flags.append('-DC08_POMDP_NOCHECK_SEEDED=true')
+    except OSError:
+        pass
     return tuple(flags)
 
 
 
 SPEC = {
     'id': 'C08',
-    'lean_modules': ['AITB.Props.C08Dense', 'AITB.Props.C08Project', 'AITB.Props.C08Vose', 'AITB.Props.C08', 'AITB.Props.C08Measure', 'AITB.Props.C08Round', 'AITB.Props.C08Models'],
+    'lean_modules': ['AITB.Props.C08Dense', 'AITB.Props.C08Project', 'AITB.Props.C08Vose', 'AITB.Props.C08', 'AITB.Props.C08Measure', 'AITB.Props.C08Round', 'AITB.Props.C08Models', 'AITB.Props.C08Chain'],
     'theorems': [_D + t for t in [
         # dense inverse-CDF scan (sampleProbability, dense template)
         'dense_in_range', 'dense_preimage', 'dense_interval_length', 'dense_preimage_sum_one',
@@ -80,6 +89,14 @@ SPEC = {
         # end-to-end statements for the code as it is now (constructor + sampler, tolerance, double avg)
         'vose_sampler_in_range', 'vose_selects_valid', 'vose_selects_double_avg', 'sampleSRSparse_selects_valid', 'coopSampleS_factor_selects_valid',
         'sampleSOR_obs_selects_valid', 'sampleSORSparse_obs_selects_valid', 'sampleORSparse_selects_valid', 'dirichlet_as_projection',
+        # round 4: the matrix overloads of isProbability decide what the 1-D template decides, row by row; an accepted table
+        # satisfies the hypotheses of the sampler theorems row by row
+        'minCoeff_neg_iff', 'isProbRowMin_eq_isProb', 'isProbMatrix2D_eq_table', 'isProbMatrix3D_eq_table', 'isProbMatrix2D_iff',
+        'isProbSparse2D_iff', 'isProbSparse2D_rejects_negative', 'isProbSparse2D_rows_select_valid', 'isProbMatrix2D_rows_select_valid',
+        # round 4: sequences of samples through one engine, rows depending on the whole history (every length): one box of draw
+        # vectors whose volume is the product of the table entries; MDP / POMDP rollouts; a copied engine breaks it
+        'chainGo_length', 'chainGo_eq_iff', 'chainGo_box', 'chainProb_eq_prod', 'chain_selects_jointly',
+        'mdpRollout_selects_jointly', 'pomdpRollout_selects_jointly', 'mdpRollout_head', 'pomdpRollout_head', 'copied_engine_not_product',
     ]],
     'harness': 'harness/c08.cpp',
     'harness_flags': _harness_flags(),
